@@ -5,7 +5,7 @@ ID=$1; shift
 W=/tmp/wt/run_$ID
 git -C /repo worktree remove --force $W >/dev/null 2>&1
 git -C /repo worktree add --detach $W HEAD >/dev/null 2>&1 || exit 2
-git -C $W apply /verif/seeded/$ID/patch.diff || { echo "patch does not apply"; exit 2; }
+git -C $W apply /verif/seeded/$ID/patch.diff 2>/dev/null || git -C $W apply --3way /verif/seeded/$ID/patch.diff || { echo "patch does not apply"; git -C /repo worktree remove --force $W; exit 2; }
 cd /verif
 for P in "$@"; do
   T0=$(date +%s)
